@@ -115,6 +115,7 @@ def fill (c : Cons) (fb : Array UInt8) (x y w h _fg bg : Nat) : Option (Array UI
   match c.font with
   | none => some fb
   | some f =>
+    if c.cols = 0 ∨ c.rows = 0 then some fb else   -- an empty grid has no cells to fill
     let x := clampOrigin x c.cols
     let y := clampOrigin y c.rows
     let w := clipExtent w c.cols x
